@@ -160,9 +160,11 @@ where
                                 co.yield_(None);
                                 break;
                             } else {
-                                let mut current_param = match current.parse::<u64>() {
-                                    Ok(val) => val,
-                                    _ => 0,
+                                let mut current_param = if current.is_empty() {
+                                    0
+                                } else {
+                                    // only digits get here: a parse error means overflow
+                                    current.parse::<u64>().unwrap_or(u64::MAX)
                                 };
                                 current_param = u64::min(current_param, 9999);
                                 params.push(current_param as u32);
@@ -284,9 +286,11 @@ where
                                 co.yield_(None);
                                 break;
                             } else {
-                                let mut current_param = match current.parse::<u64>() {
-                                    Ok(val) => val,
-                                    _ => 0,
+                                let mut current_param = if current.is_empty() {
+                                    0
+                                } else {
+                                    // only digits get here: a parse error means overflow
+                                    current.parse::<u64>().unwrap_or(u64::MAX)
                                 };
                                 current_param = u64::min(current_param, 9999);
                                 params.push(current_param as u32);
